@@ -263,14 +263,32 @@ def r4(ctx):
           "OrderError::Connectivity{0: ConnectivityError::Timeout{}}" in of.get("state", ""))
     ctx.check("ExecutionManager::process_open_timeout", ok,
               "an open timeout is reported as a failed (inactive, Timeout) snapshot of the request's own order", got=r[:400], key="event")
-    cr = ctx.fibody(name="process_cancel_response", self_adt=EM, trait="")
-    oks = [render(t) for g, t, bi in cr.expanded_cases(0) if render(t).startswith("Result::Ok")]
-    idx = "Try::branch(AccountEventIndexer::order_response_cancel(self.indexer, order)).as:Continue.0"
-    ctx.check("ExecutionManager::process_cancel_response", oks == [
+    # decided at the call site in `run` (callee parameters replaced by the actual arguments), so it does not matter whether the
+    # indexer reaches the helper through `self` or as an explicit argument
+    rb = _run(ctx)
+    sites = [tm for bi, t, tm in rb.real_calls() if mir.short(tm[1]) == "ExecutionManager::process_cancel_response"]
+    oks = []
+    arg = None
+    if len(sites) == 1:
+        arg = render(sites[0][2][-1])
+        oks = [render(t) for g, t in (common.at_call(ctx, sites[0]) or []) if render(t).startswith("Result::Ok")]
+    idx = "Try::branch(AccountEventIndexer::order_response_cancel(^self.indexer, %s)).as:Continue.0" % arg
+    ctx.check("ExecutionManager::process_cancel_response", len(sites) == 1 and oks == [
         "Result::Ok{0: Event::Item{0: AccountEvent::AccountEvent{exchange: %s.key.exchange, kind: AccountEventKind::OrderCancelled{0: %s}}}}" % (idx, idx)],
         "the client's cancel response is indexed and attributed to its own key's exchange", got=oks, key="event")
-    orr = ctx.fibody(name="process_open_response", self_adt=EM, trait="")
-    cases = common.expand_phi_cases(orr, [c for c in orr.expanded_cases(0) if render(c[1]).startswith("Result::Ok")])
+    # (again at the call site in `run`, with the response written `order` and the manager `self`, so that a helper taking
+    #  `&self` and one taking the indexer as an explicit argument read the same)
+    osites = [tm for bi, t, tm in rb.real_calls() if mir.short(tm[1]) == "ExecutionManager::process_open_response"]
+    if len(osites) != 1:
+        raise Exception("expected one call of process_open_response in run, got %d" % len(osites))
+    oarg = osites[0][2][-1]
+
+    def named(t):
+        t = common.rename_term(t, oarg, ("param", 2, "order"))
+        return common.rename_term(t, ("upvar", "self"), ("param", 1, "self"))
+    ocases = [(frozenset(frozenset((a[0], named(a[1])) + tuple(a[2:]) for a in conj) for conj in g), named(t), None)
+              for g, t in (common.at_call(ctx, osites[0]) or [])]
+    cases = [c for c in ocases if render(c[1]).startswith("Result::Ok")]
     tab = {}
     for g, term, bi in cases:
         for conj in g:
@@ -296,7 +314,7 @@ def r4(ctx):
                                         (k == "state=Err" and "order_error(self.indexer, order.state.as:Err.0)" in norm[k]) for k in want)
     ctx.check("ExecutionManager::process_open_response", ok,
               "Ok(open) with nothing remaining -> fully filled; Ok(open) -> active; Err -> inactive(error)", got=norm, want=want, key="table")
-    r = [render(t) for g, t, bi in orr.expanded_cases(0) if render(t).startswith("Result::Ok")]
+    r = [render(t) for g, t, bi in ocases if render(t).startswith("Result::Ok")]
     key = "Try::branch(AccountEventIndexer::order_key(self.indexer, order.key)).as:Continue.0"
     ctx.check("ExecutionManager::process_open_response", len(r) >= 1 and all(("exchange: %s.exchange" % key) in x and ("key: %s, side: order.side, price: order.price, quantity: order.quantity" % key) in x for x in r),
               "the response is attributed to the indexed key of the responded order itself", got=[x[:300] for x in r], key="attribution")
